@@ -163,8 +163,8 @@ def interpolation_closed_form(K, dim, n_comp):
 
 
 @unit("spreading_postcondition", props=("C07",), kernels=False,
-      configs=[dict(dim=d, n_comp=c) for d in (2, 3) for c in (1, "vec")])
-def spreading_postcondition(K, dim, n_comp):
+      configs=[dict(dim=d, n_comp=c, placement=p) for d in (2, 3) for c in (1, "vec") for p in ("free", "same_cell", "adjacent")])
+def spreading_postcondition(K, dim, n_comp, placement="free"):
     """Lagrangian -> Eulerian, strongest postcondition over the WHOLE grid: every cell c ends with
     old[c] + sum_i sum_k [c is window cell k of marker i] * lag[.., i] * weights[k, i]  (accumulation into
     arbitrary prior content; overlapping or identical supports add up; all other cells and all inputs
@@ -173,6 +173,14 @@ def spreading_postcondition(K, dim, n_comp):
     n_mark = 2
     shape = tuple(K.ext(n, lo=4) for n in ("nz", "ny", "nx")[3 - dim:])
     m = {(a, i): K.int(f"m{a}_{i}", lo=1, hi=shape[dim - 1 - a] - 3) for a in range(dim) for i in range(n_mark)}
+    # "free" covers every relative placement symbolically; the two special placements (markers clustered in one
+    # cell / in neighbouring cells) are spelled out so that bounded native sampling also exercises them
+    if placement != "free":
+        for a in range(dim):
+            if K.mode == "sym":
+                K.requires(m[a, 1] == m[a, 0] + (1 if (placement == "adjacent" and a == 0) else 0))
+            else:
+                m[a, 1] = min(m[a, 0] + (1 if (placement == "adjacent" and a == 0) else 0), int(shape[dim - 1 - a]) - 3)
     near = K.array("nearest_eul_grid_index_to_lag_grid", (dim, n_mark), kind="int", init=lambda idx: m[idx])
     wts = K.array("interp_weights", (2 * W,) * dim + (n_mark,))
     eul = K.field("eul_grid_field", ((nc,) if nc > 1 else ()) + shape)
@@ -181,6 +189,8 @@ def spreading_postcondition(K, dim, n_comp):
              num_lag_nodes=n_mark, interp_kernel_width=W, n_components=nc)
     K.run(k, eul, lag, wts, near)
     c = K.cell(shape)
+    if K.mode != "sym":  # sample a cell inside marker 0's window
+        c = tuple(int(m[dim - 1 - ax, 0]) - 1 + int(K.rng.integers(0, 4)) for ax in range(dim))
     for comp in (range(nc) if nc > 1 else [None]):
         pre = (comp,) if comp is not None else ()
         add = 0
